@@ -16,6 +16,7 @@ from .tlc import SPEC_DIR, Workdir
 # lemma -> expected outcome
 LEMMAS = {"CutsNoSilentWrap": "NoError", "LocalNoSilentWrap": "NoError", "WindowInside": "NoError", "PickSpacing": "NoError",
           "InnerStrictlyInside": "NoError", "PeltLatestStart": "NoError",
+          "WindowSearchCount": "NoError", "SeededIntervalExists": "NoError", "CovParamSizeGrows": "NoError",
           "CutsPinnedWouldWrap": "Error"}   # negative lemma: the pinned check without bounds must be refuted
 
 
